@@ -370,6 +370,7 @@ type Frame struct {
 	iters    map[ssa.Value]*iterVal
 	loopHavoc map[int]map[ssa.Value]Val
 	loopMapBad bool
+	iterOrd    map[ssa.Instruction]int
 }
 
 type deferRec struct {
